@@ -28,7 +28,8 @@ ASSUME StdCipherIsWordCipher ==      \* whole dwords: same as MpqCrypto's block 
       /\ UnitDecrypt(UnitEncrypt(bs, kk, LibW), kk, LibR) = bs
       /\ UnitEncrypt(bs, kk, LibW) # UnitEncrypt(bs, kk, Std)
 
-Thorough == IOEnv.VERIF_TIER = "thorough"
+\* model size: "cov" (tiny, run under -coverage for the vacuity guard), "quick", "thorough"
+Model == IF "C02_MODEL" \in DOMAIN IOEnv THEN IOEnv.C02_MODEL ELSE "quick"
 
 NameA  == <<97>>                                                        \* "a"
 \* "D\x" colliding with "a" on the home slot of a 4-entry table: exercises probing
@@ -53,17 +54,20 @@ Shape(kind, ssz) ==
                                         ELSE <<Cmp(M_ZLIB, Ramp(70, 4)), Raw(Ramp(80, 3))>>]
 
 Kinds1 == {"tiny", "unitcmp", "bigunit", "empty", "flagraw", "rawsecs", "cmpsecs"}
-Kinds2 == IF Thorough THEN {"tiny", "rawsecs", "cmpsecs", "unitcmp"} ELSE {"rawsecs", "cmpsecs"}
-Encs1  == {"plain", "enc", "fix"}
-Encs2  == IF Thorough THEN {"plain", "enc", "fix"} ELSE {"plain", "fix"}
-Dialects == {Std, LibW, LibR}
+Kinds2 == CASE Model = "cov" -> {"cmpsecs"} [] Model = "quick" -> {"cmpsecs"}
+            [] OTHER -> {"tiny", "rawsecs", "cmpsecs", "unitcmp"}
+Encs1  == IF Model = "cov" THEN {"fix"} ELSE {"plain", "enc", "fix"}
+Encs2  == CASE Model = "cov" -> {"enc"} [] Model = "quick" -> {"fix"} [] OTHER -> {"plain", "enc", "fix"}
+Dialects == IF Model = "cov" THEN {Std} ELSE {Std, LibW, LibR}
 
 MkFile(name, kind, enc, ssz) == [name |-> name, enc |-> enc] @@ Shape(kind, ssz)
 Prefix512 == [pi \in 1..512 |-> (pi * 7) % 251]
 
-Cfgs == {[ver |-> ver, shift |-> shift, hcount |-> 4, ndel |-> ndel, hibt |-> extra,
-          prefix |-> IF extra THEN Prefix512 ELSE <<>>] :
-            ver \in {0, 1}, shift \in {0, 1}, ndel \in {0, 1}, extra \in BOOLEAN}
+Cfgs == {[ver |-> cc[1], shift |-> cc[2], hcount |-> 4, ndel |-> cc[3], hibt |-> cc[4],
+          prefix |-> IF cc[4] THEN Prefix512 ELSE <<>>] :
+            cc \in {c4 \in {0, 1} \X {0, 1} \X {0, 1} \X BOOLEAN :
+                      /\ (Model = "cov" => c4[3] = 1)
+                      /\ (Model # "thorough" => c4[4] = (c4[3] = 1))}}
 
 VARIABLES vfiles, vcfg, vdial, vwst, vphase, vnext, vimg, vchecked
 mvars == <<vfiles, vcfg, vdial, vwst, vphase, vnext, vimg, vchecked>>
